@@ -239,10 +239,10 @@ Definition encrypt_with (et : Z) (key : bytes) (usage : Z) (conf msg : bytes) : 
   | None => Err 31
   end.
 
-(* Decryption; inputs shorter than confounder + MAC are an error (repaired code). *)
+(* Decryption; inputs shorter than confounder + MAC and keys of the wrong size are errors (repaired code). *)
 Definition decrypt (et : Z) (key : bytes) (usage : Z) (ct : bytes) : res bytes :=
   match et_family et with
-  | Some FRc4 => rc4_decrypt key usage ct
+  | Some FRc4 => if negb (length key =? key_len et)%nat then Err 30 else rc4_decrypt key usage ct
   | Some FAesSha1 =>
     if (length ct <? conf_len et + mac_len et)%nat then Err 40 else
     do ke <- derive_key et key (usage_const usage 170);
@@ -251,6 +251,7 @@ Definition decrypt (et : Z) (key : bytes) (usage : Z) (ct : bytes) : res bytes :
     do ih <- integrity_hash et key usage pt;
     if beq_bytes ih (skipn n ct) then Ok (skipn 16 pt) else Err 41
   | Some FAesSha2 =>
+    if negb (length key =? key_len et)%nat then Err 30 else
     if (length ct <? conf_len et + mac_len et)%nat then Err 40 else
     do ke <- derive_key et key (usage_const usage 170);
     let n := (length ct - mac_len et)%nat in
